@@ -86,7 +86,8 @@ def controls_for(nq):
     """name -> (shift of the words, control argument); nq = number of qubits the words may touch."""
     a, b = nq, nq + 1
     return {"none": (0, None), "int": (0, a), "one": (0, [a]), "two": (0, [a, b]), "two_rev": (0, [b, a]),
-            "q0": (1, [0]), "q0+": (1, [0, b])}
+            "q0": (1, [0]), "q0+": (1, [0, b]),
+            "int0": (1, 0)}      # the integer 0 as control (falsy value): words shifted to qubits 1..
 
 
 def cyc(vals, k, j):
@@ -601,7 +602,7 @@ def repro(case):
 
 def plan(tier):
     q = tier == "quick"
-    allc = ["none", "int", "one", "two", "two_rev", "q0", "q0+"]
+    allc = ["none", "int", "int0", "one", "two", "two_rev", "q0", "q0+"]
     return {
         "pw": {"words": 63, "coefs": 7, "controls": allc, "variational": "True for all; False additionally for none/one"},
         "b1": {"words": "W2(16)+W3(10)", "coefs": "all 3", "times": "3 scalars + integer 1 + 3 one-entry dicts", "orders": [1, 2, 4] if q else [1, 2, 4, 6],
@@ -624,7 +625,7 @@ def plan(tier):
                  "mappings": ["JW", "BK", "scBK", "JKMN"], "up_then_down": [False, True], "orders": [1, 2],
                  "steps": [1, 2], "controls": "none / [nq] / [nq, nq+1]"},
         "tsu": {"operators": "all W2 singles; ordered pairs of W2Q", "coefs": "3 / cyclic", "times": [0.3, -0.3], "orders": [1, 2],
-                "n_trotter_steps": [1, 2], "n_steps": [1, 2, 4], "controls": ["none", "int", "two", "q0"],
+                "n_trotter_steps": [1, 2], "n_steps": [1, 2, 4], "controls": ["none", "int", "int0", "two", "q0"],
                 "methods": "time, repeat, default(ctor=time), default(ctor=repeat)"},
     }
 
